@@ -264,9 +264,9 @@ def _mk_descriptor(kind, psi_sign=1.0):
                 env.claim("pf_segment_ends_at_the_leg's_own_separatrix:%s" % rname, segs[parent.get(pf, pf)]["psi_end"] == want)
         if kind in ("lsn", "usn"):
             pf = "lower_pf" if kind == "lsn" else "upper_pf"
-            env.claim("same_gradient_both_sides_of_separatrix",
-                      segs["core"]["grad_end"] is segs["sol"]["grad_start"] or bool(env.close(segs["core"]["grad_end"], segs["sol"]["grad_start"]))
-                      if env.mode != "sym" else env.identical(segs["core"]["grad_end"], segs["sol"]["grad_start"]) and env.identical(segs[pf]["grad_end"], segs["sol"]["grad_start"]))
+            # (symbolic equalities, so that a counterexample is a choice of sizes for which the two gradients really differ)
+            env.claim_eq("same_gradient_both_sides_of_separatrix(core|sol)", segs["core"]["grad_end"], segs["sol"]["grad_start"])
+            env.claim_eq("same_gradient_both_sides_of_separatrix(pf|sol)", segs[pf]["grad_end"], segs["sol"]["grad_start"])
             env.claim("segments_share_separatrix_psi", segs["core"]["psi_end"] == psi_sep[0] and segs["sol"]["psi_start"] == psi_sep[0] and segs[pf]["psi_end"] == psi_sep[0])
             env.claim("separatrix_side_has_no_free_end", "grad_start" not in segs["core"] and "grad_end" not in segs["sol"])
         else:
@@ -281,6 +281,11 @@ def _mk_descriptor(kind, psi_sign=1.0):
                 env.claim("sol_and_pf_meet_at_the_single_separatrix", all(segs[k][e] == psi_sep[0] for k, e in (
                     ("inner_sol", "psi_start"), ("outer_sol", "psi_start"), ("upper_pf", "psi_end"), ("lower_pf", "psi_end"))))
             env.claim("same_gradient_both_sides_of_every_separatrix", same)
+            for k, e in (("upper_pf", "grad_end"), ("lower_pf", "grad_end"), ("inner_sol", "grad_start"), ("outer_sol", "grad_start")):
+                env.claim_eq("same_gradient_as_core_side:%s" % k, segs[k][e], g)
+            if "near_sol" in segs:
+                for e in ("grad_start", "grad_end"):
+                    env.claim_eq("same_gradient_as_core_side:near_sol_" + e, segs["near_sol"][e], g)
             env.claim("core_ends_at_inner_separatrix", segs["core"]["psi_end"] == psi_sep[0])
     return body
 
